@@ -49,6 +49,14 @@ status storage::create_storage(std::string_view storage_name) { // NOLINT
 }
 
 status storage::delete_storage(std::string_view storage_name) { // NOLINT
+    /**
+     * Only one delete_storage runs at a time. Between the look-up and the
+     * remove below, another deleter could remove the entry and a creator
+     * re-create the name: the remove would then take the new entry while the
+     * tree destroyed here is the old one (destroyed twice, the new one leaked).
+     */
+    std::unique_lock<std::mutex> lk{mtx_delete_storage_, std::defer_lock};
+    while (!lk.try_lock()) { _mm_pause(); }
     Token token{};
     while (status::OK != enter(token)) { _mm_pause(); }
     // search storage
